@@ -133,8 +133,17 @@ def _to_string(
     coefficients = poly.coefficients
     options = numpoly.get_options()
     output: List[str] = []
+    # the terms are ordered with the indeterminates in index order, whatever
+    # order the polynomial stores them in
+    length = len(options["default_varname"])
+
+    def position(idx: int) -> int:
+        suffix = poly.names[idx][length:]
+        return int(suffix) if suffix.isdigit() else 0
+
+    columns = sorted(range(len(poly.names)), key=position)
     indices = numpoly.glexsort(
-        exponents.T,
+        exponents[:, columns].T,
         graded=options["display_graded"],
         reverse=options["display_reverse"],
     )
